@@ -97,8 +97,8 @@ Proof.
   pose proof (latest_loop ins None [("self", E0); ("get:inputs", MArr (map (m_out pv) ins))]) as Hl.
   unfold run_fn. rewrite latest_shape.
   remember latest_body as body eqn:Hb. clear Hb.
-  cbn [eval]. rewrite flatten_tbind. cbn [ret1 flatten pmatch app].
-  rewrite flatten_tbind. cbn [eval]. rewrite flatten_tbind. rewrite flatten_tbind.
+  rewrite flatten_let. change (flatten (eval c ENone ?en)) with (Ok (ONorm (@MNone F) en)). cbn [after].
+  rewrite flatten_seq. erewrite flatten_for by reflexivity.
   cbn [opt_leaf lookup String.eqb Ascii.eqb Bool.eqb flatten]. cbn [m_opt] in Hl. rewrite Hl.
   cbn.
   unfold latest_n. destruct (latest_go ins None) as [[t x]|]; reflexivity.
